@@ -67,13 +67,21 @@ def sh(cmd, cwd=None, timeout=300):
 
 
 def lemma_blocks():
-    src = open(os.path.join(COQ, "Proofs", "GenKernelsProofs.v")).read()
-    src = src.replace("From CF Require Import Gen.GenKernels.", "From GKM Require Import GenKernels.")
-    head, rest = src.split("Section Eq.", 1)
-    ctx = "Section Eq.\n  Context {T : Type}.\n  Variable R : SimdOps T.\n  Variable Mth : MathOps T.\n"
+    """The per-kernel lemmas live in one file per kernel family (GenKernelsArith/Reduce/MinMax/Cosine.v)."""
+    head = ("From Coq Require Import List Arith Bool String.\n"
+            "From CF Require Import Base.Mem Model.Tables Model.SimdApi Model.Kernels.\n"
+            "From GKM Require Import GenKernels.\nImport ListNotations.\n")
     blocks = {}
-    for m in re.finditer(r"  Lemma (gen_\w+) .*?Qed\.", rest, flags=re.S):
-        blocks[m.group(1)] = m.group(0)
+    for fam in ("Arith", "Reduce", "MinMax", "Cosine"):
+        src = open(os.path.join(COQ, "Proofs", "GenKernels%s.v" % fam)).read()
+        pre, rest = src.split("Section Eq.", 1)
+        if fam == "Cosine":
+            # the pointwise monad laws (before the section) are needed by the cosine lemma
+            m = re.search(r"\(\*\* \* Monad laws.*", pre, flags=re.S)
+            head += (m.group(0) if m else "")
+        for m in re.finditer(r"  Lemma (gen_\w+) .*?Qed\.", rest, flags=re.S):
+            blocks[m.group(1)] = m.group(0)
+    ctx = "Section Eq.\n  Context {T : Type}.\n  Variable R : SimdOps T.\n  Variable Mth : MathOps T.\n"
     return head + ctx, blocks
 
 
